@@ -2,6 +2,7 @@ package checks
 
 import (
 	"fmt"
+	"github.com/rulego/streamsql"
 	"math/rand"
 	"strings"
 	"time"
@@ -32,6 +33,8 @@ type c09Case struct {
 	// KeyForm of the first grouping column: "" plain name | "nested" (GROUP BY d.k1, rows carry d:{k1:..}) |
 	// "backquoted" (GROUP BY `k1`)
 	KeyForm string `json:"first_key_form,omitempty"`
+	// Monitor: a monitoring loop reads and resets the statistics every few rows while rows keep arriving
+	Monitor bool `json:"stats_reader_and_reset,omitempty"`
 }
 
 func genC09(ref core.CaseRef, r *rand.Rand) *c09Case {
@@ -113,6 +116,7 @@ func genC09(ref core.CaseRef, r *rand.Rand) *c09Case {
 		// the engine reports as dropped and the monitor then calls inconclusive)
 		c.Strategy, c.Feed, c.Buffer = "expand", "burst", 4096
 	}
+	c.Monitor = ref.Index%9 == 2
 	sel := []string{}
 	for _, col := range c.Cols {
 		sel = append(sel, col)
@@ -148,6 +152,7 @@ func runC09(ctx *core.Ctx) {
 		c := genC09(core.CaseRef{Stream: "c09", Index: i}, r)
 		execC09(ctx, c)
 	})
+	c09MixedStream(ctx)
 	for k, v := range sched.Hits() {
 		ctx.Count("hook_hits."+k, v)
 	}
@@ -195,6 +200,18 @@ func execC09(ctx *core.Ctx, c *c09Case) {
 	}
 	if c.FnKey {
 		ctx.Count("cases_function_key", 1)
+	}
+	if c.Monitor {
+		ctx.Count("cases_with_stats_reset", 1)
+		ro.Each = func(s *streamsql.Streamsql, i int) {
+			if i%5 == 3 {
+				_ = s.GetStats()
+				_ = s.GetDetailedStats()
+				if st := s.Stream(); st != nil {
+					st.ResetStats()
+				}
+			}
+		}
 	}
 	switch c.Feed {
 	case "gaps":
